@@ -23,12 +23,16 @@ CFLAGS = ["-g", "-O1", "-fno-omit-frame-pointer", "-D_GNU_SOURCE", "-DIVYKIS_VER
 WRAPS_VK = ["clock_gettime", "epoll_wait", "epoll_pwait2", "poll", "ppoll", "epoll_ctl", "epoll_create",
             "timerfd_create", "timerfd_settime", "close", "pipe", "syscall"]
 
+WRAPS_SCHED = ["pthread_mutex_lock", "pthread_mutex_unlock", "pthread_mutex_destroy", "pthread_spin_lock", "pthread_spin_unlock",
+               "pthread_create", "pthread_join", "read", "write"]
+
 # target -> (harness sources, wrap symbols, sanitizer flavour, extra link flags)
 TARGETS = {
     "loop": (["vfz.c", "vk.c", "t_loop.c"], WRAPS_VK, "asan", []),
     "avl": (["vfz.c", "t_avl.c"], [], "asan", []),
     "timers": (["vfz.c", "vk.c", "t_timers.c"], WRAPS_VK, "asan", []),
     "pump": (["vfz.c", "t_pump.c"], ["read", "write", "splice", "shutdown"], "asan", []),
+    "mt": (["vfz.c", "vk.c", "vsched.c", "t_mt.c"], WRAPS_VK + WRAPS_SCHED, "asan", []),
 }
 
 
@@ -218,14 +222,29 @@ def same_failure(r, ref):
 
 
 def shrink(exe, params, data, ref, workdir, budget_s=60):
-    """Hypothesis-style shrinking on the choice sequence; each candidate runs in a fresh process."""
+    """Hypothesis-style shrinking on the choice sequence(s); each candidate runs in a fresh process.
+    A second stream (params['bytes2'], the schedule of engine B) is shrunk first, then the program bytes."""
+    if params.get("bytes2"):
+        params = dict(params)
+        b2 = bytes.fromhex(params["bytes2"])
+        def mk2(c):
+            pp = dict(params); pp["bytes2"] = c.hex(); return pp, data
+        b2 = _shrink_stream(exe, b2, mk2, ref, workdir, budget_s / 2)
+        params["bytes2"] = b2.hex()
+        small = _shrink_stream(exe, data, lambda c: (params, c), ref, workdir, budget_s / 2)
+        return small, params
+    return _shrink_stream(exe, data, lambda c: (params, c), ref, workdir, budget_s), params
+
+
+def _shrink_stream(exe, data, mk, ref, workdir, budget_s):
     t0 = time.time()
     tmpn = [0]
 
     def test(cand):
         tmpn[0] += 1
         p = os.path.join(workdir, "shr%d_%d.case" % (os.getpid(), tmpn[0] % 64))
-        write_case(p, params, cand)
+        pp, dd = mk(cand)
+        write_case(p, pp, dd)
         r = run_case(exe, p, timeout=60)
         return same_failure(r, ref)
 
